@@ -64,7 +64,9 @@ impl RQSC {
         // Fix up the length of the table
         let len = qos_len as u32;
         let old_len = self.header.length.get();
-        let new_len = len + old_len;
+        let new_len = old_len
+            .checked_add(len)
+            .expect("table length overflows the 32-bit Length field");
         self.header.length.set(new_len);
 
         // Fix up checksum
